@@ -407,6 +407,14 @@ func (s *Solver) oneShot(extra *Term, vars []*Term) (SatResult, []uint64) {
 	return Unknown, nil
 }
 
+// checkSatCmd: cvc5 rejects an empty assumption list.
+func checkSatCmd(assumptions string) string {
+	if strings.TrimSpace(assumptions) == "" {
+		return "(check-sat)"
+	}
+	return "(check-sat-assuming (" + assumptions + "))"
+}
+
 func (s *Solver) readLine() string {
 	line, err := s.out.ReadString('\n')
 	if err != nil {
@@ -438,7 +446,7 @@ func (s *Solver) Check(extra *Term) SatResult {
 		s.Time += time.Since(start)
 		return r
 	}
-	s.send("(check-sat-assuming (" + s.assumptions(extra) + "))\n(echo \"@@\")\n")
+	s.send(checkSatCmd(s.assumptions(extra)) + "\n(echo \"@@\")\n")
 	s.flush()
 	s.Queries++
 	res := Unknown
@@ -525,7 +533,7 @@ func (s *Solver) CheckWithModel(extra *Term, vars []*Term) (SatResult, []uint64)
 	for i, v := range vars {
 		names[i] = s.ref(v)
 	}
-	s.send("(check-sat-assuming (" + s.assumptions(extra) + "))\n(echo \"@@\")\n")
+	s.send(checkSatCmd(s.assumptions(extra)) + "\n(echo \"@@\")\n")
 	s.flush()
 	s.Queries++
 	res := Unknown
